@@ -57,7 +57,36 @@ def run(c):
         if not hyp:
             c.proof_failed.append({"premise": "claim true but the matrix does not satisfy the theorem's hypotheses (even source columns, staircase)",
                                    "request": q.line(), "column_weights": cnt})
-    c.cov["evaluations"] = len(reqs)
+    # the claim of a session queried while OTHER sessions, configured later, are alive (seed C15i kept the extra-entries flag in a module
+    # variable): stream pchk with `post` sessions of the opposite kind; a true claim needs every source column of the session's own matrix even
+    preqs = []
+    for _ in range(80 if c.tier == "quick" else 800):
+        n1 = rng.choice([4, 4, 6, 8])
+        k = rng.rng(1, 30)
+        r = rng.choice([rng.rng(n1, n1 + 4), rng.rng(n1, max(n1, k * n1 // 2 + 3)), min(60, k * n1 + 5)])
+        other = "%d:%d:%d:%d,%d:%d:%d:%d" % (60, 20, n1, rng.rng(1, 2 ** 31 - 2), 3, 40, n1, rng.rng(1, 2 ** 31 - 2))   # one without, one with extra entries
+        preqs.append("Q %d %d %d %d %d - %s" % (k, max(r, n1), n1, rng.rng(1, 2 ** 31 - 2), rng.choice([1, 2]), other))
+    pexe = vlib.build_c(c.snap, "drv_pchk", "drv_pchk.c")
+    pans, pcr = vlib.run_driver(pexe, preqs, prefix="R")
+    for rq, an in zip(preqs, pans):
+        if an.startswith(("CRASH", "SKIPPED")):
+            c.violation("matrix construction crashed: %s" % an[:200], "session-crash", {"stream": "pchk", "request": rq}); continue
+        d = {}
+        for t in an.split()[1:]:
+            d["LN" if t.startswith("LN") else t[0]] = t[2:] if t.startswith("LN") else t[1:]
+        if d.get("P") != "0" or "H" not in d:
+            continue
+        rr, nn = [int(x) for x in d["H"].split(":")[0].split(",")]
+        rows = [[int(x) for x in row.split(",")] for row in d["H"].split(":", 1)[1].split("/")]
+        w = [0] * nn
+        for row in rows:
+            for x in row:
+                w[x] += 1
+        if d.get("LN") == "1" and any(w[x] % 2 for x in range(rr, nn)):
+            c.violation("a session claims its last repair symbol is null while other sessions are alive, but a source column of its matrix has odd weight "
+                        "(the claim is false for some blocks): %s" % rq, "lastnull-false-claim", {"stream": "pchk", "request": rq, "column_weights": w})
+        ntrue += 1 if d.get("LN") == "1" else 0
+    c.cov["evaluations"] = len(reqs) + len(preqs)
     c.cov["distinct_nontrivial"] = len(distinct)
     c.cov["traces_validated_against_impl"] = ntrue
     c.cov["rule"] = ("LDPC sessions with even N1 in {4,6,8} (and odd N1 as control) at rates on both sides of the extra-entry threshold, random payloads and seeds; "
